@@ -88,7 +88,7 @@ PROPS = {
         "assumptions": [],
     },
     "C15": {
-        "lean_modules": ["StimModel.Props.C15", "StimModel.Core.Count"],
+        "lean_modules": ["StimModel.Props.C15", "StimModel.Core.Count", "StimModel.Props.C15b"],
         "builds": ["asan"],
         "areas": [
             {"area": "circq", "n": {"quick": 1200, "thorough": 30000}, "builds": ["asan"], "replayable": True},
@@ -102,7 +102,7 @@ PROPS = {
                 "whose sources are destroyed before the result is read, under ASan+UBSan; distinct = distinct case descriptions",
         "trusted_base": ["ASan/UBSan as the observer of aliasing of freed or foreign storage"],
         "partial": ["final_coord_shift / detector / qubit coordinate closed forms are compared with the unrolled executor by correspondence (exact rationals), not proved equal in Lean",
-                    "algebra_refines_lists is checked per operation through the verified-by-computation normal form `sameProgram`; the statement that equal normal forms unroll to equal streams is not yet proved"],
+                    "algebra_refines_lists is checked per operation through the normal form `sameProgram`; C15b.same_normal_form_same_stream proves that equal normal forms execute the same stream at target granularity (fusion-insensitive); the converse (every fusion-equivalent pair has equal normal forms) is not proved — a missed equivalence would show as a false alarm, not a missed defect"],
         "assumptions": ["coordinates are dyadic so binary64 arithmetic is exact; with astronomically large repeat counts only the integer counts are compared"],
     },
     "C02": {
